@@ -5,6 +5,7 @@ import (
 	"fmt"
 	"os"
 	"strconv"
+	"time"
 
 	"verif/engine/drive"
 	"verif/engine/symex"
@@ -47,8 +48,10 @@ func main() {
 		}
 	}
 	opt.OneShotMs = 30000
+	opt.OneShotBudget = 90 * time.Second
 	if *tier == "thorough" {
 		opt.OneShotMs = 240000
+		opt.OneShotBudget = 30 * time.Minute
 	}
 	mk, ok := drive.Plans[prop]
 	if !ok {
